@@ -92,10 +92,13 @@ type rq struct {
 	Skip    bool // carries X-Skip: 1
 	Status  int  // what the origin answers if reached
 	Size    int
-	ExpSec  int  // origin sets X-Exp-Sec (ExpirationGenerator input); 0 = header absent
-	Enc     bool // origin sets a Content-Encoding
-	Sleep   int  // origin sleeps that many virtual seconds (vt, sequential only)
-	Probe   bool // bound probe (origin answers 500, so a miss stores nothing)
+	ExpSec  int // origin sets X-Exp-Sec (ExpirationGenerator input); 0 = header absent
+	// SubSec: origin sets X-Exp-Ms instead ("0", "1", "500", "999"): the generator returns that many
+	// milliseconds, i.e. a lifetime below one second (zero whole seconds). "" = header absent.
+	SubSec string
+	Enc    bool // origin sets a Content-Encoding
+	Sleep  int  // origin sleeps that many virtual seconds (vt, sequential only)
+	Probe  bool // bound probe (origin answers 500, so a miss stores nothing)
 
 	// observed
 	S, E     int64 // logical ticks at start / end
@@ -150,6 +153,9 @@ func (q *rq) spec() string {
 	s += fmt.Sprintf(" [origin: %d, %dB", q.Status, q.Size)
 	if q.ExpSec > 0 {
 		s += fmt.Sprintf(", exp=%ds", q.ExpSec)
+	}
+	if q.SubSec != "" {
+		s += fmt.Sprintf(", exp=%sms", q.SubSec)
 	}
 	if q.Sleep > 0 {
 		s += fmt.Sprintf(", sleeps %ds", q.Sleep)
@@ -344,6 +350,9 @@ func newRig(e *ev.Env, c *ev.Case, cf conf) *rig {
 	if cf.ExpGen {
 		cc.ExpirationGenerator = func(c fiber.Ctx, cfg *fcache.Config) time.Duration {
 			g.y("ExpirationGenerator")
+			if ms, err := strconv.Atoi(c.GetRespHeader("X-Exp-Ms", "")); err == nil && ms >= 0 {
+				return time.Duration(ms) * time.Millisecond
+			}
 			n, err := strconv.Atoi(c.GetRespHeader("X-Exp-Sec", ""))
 			if err != nil || n <= 0 {
 				return cfg.Expiration
@@ -380,7 +389,12 @@ func (g *rig) origin(c fiber.Ctx) error {
 	}
 	x.Hdr = map[string]string{"X-U1": fmt.Sprintf("u1-%06d", id), "X-U2": fmt.Sprintf("u2-%06d-%s", id, q.Key)}
 	x.ExpSec = g.cf.Exp
-	if q.ExpSec > 0 {
+	if q.SubSec != "" {
+		x.Hdr["X-Exp-Ms"] = q.SubSec
+		if g.cf.ExpGen {
+			x.ExpSec = 0 // a lifetime of zero whole seconds
+		}
+	} else if q.ExpSec > 0 {
 		x.Hdr["X-Exp-Sec"] = strconv.Itoa(q.ExpSec)
 		if g.cf.ExpGen {
 			x.ExpSec = q.ExpSec
@@ -397,7 +411,7 @@ func (g *rig) origin(c fiber.Ctx) error {
 	if x.Cenc != "" {
 		c.Set("Content-Encoding", x.Cenc)
 	}
-	for _, k := range []string{"X-U1", "X-U2", "X-Exp-Sec"} {
+	for _, k := range []string{"X-U1", "X-U2", "X-Exp-Sec", "X-Exp-Ms"} {
 		if v, ok := x.Hdr[k]; ok {
 			c.Set(k, v)
 		}
